@@ -206,8 +206,23 @@ def _twin_family():
     return out
 
 
+def _install_time_family():
+    """install-time dependencies (IDEPEND) of a merged package are clauses like any other; also next to post-merge ones, inside an any-of whose
+    first alternative is missing, and on a version reached after the first candidate was given up"""
+    out = []
+    for dep in ("a/i", "|| ( a/missing a/i )", ">=a/i-1"):
+        for other in ({}, {"PDEPEND": "a/y"}, {"RDEPEND": "a/y"}):
+            src = {"a": {"a": {"1": dict({"IDEPEND": dep}, **other)}, "i": {"1": {}}, "y": {"1": {}}}}
+            for kind in ("upgrade", "min_install"):
+                out.append((src, {}, ["a/a"], kind))
+    src = {"a": {"a": {"2": {"RDEPEND": "a/missing"}, "1": {"IDEPEND": "|| ( a/missing a/i )", "RDEPEND": "a/y"}}, "i": {"1": {}}, "y": {"1": {}}}}
+    out.append((src, {}, ["a/a"], "upgrade"))
+    return out
+
+
 EXTRA += _shared_blocker_family()
 EXTRA += _twin_family()
+EXTRA += _install_time_family()
 RECURSION_INPUTS = {"3206975074a0", "ddfdb71f8778"}
 BLOCKER_INPUTS = {"8624bce3c444", "c49c27792a00"}
 
